@@ -1984,6 +1984,11 @@ int32 parseServerKeyExchange(ssl_t *ssl,
                 }
                 ssl->sec.x25519KeyPub = psMalloc(ssl->sec.eccDhKeyPool,
                         PS_DH_X25519_PUBLIC_KEY_BYTES);
+                if (ssl->sec.x25519KeyPub == NULL)
+                {
+                    ssl->err = SSL_ALERT_INTERNAL_ERROR;
+                    return SSL_MEM_ERROR;
+                }
                 Memcpy(ssl->sec.x25519KeyPub,
                         c,
                         PS_DH_X25519_PUBLIC_KEY_BYTES);
@@ -2611,7 +2616,10 @@ int32 parseCertificateRequest(ssl_t *ssl,
             if (keySelect->caNames == NULL || keySelect->caNameLens == NULL)
             {
                 psFree(keySelect->caNames, ssl->hsPool);
+                keySelect->caNames = NULL;
                 psFree(keySelect->caNameLens, ssl->hsPool);
+                keySelect->caNameLens = NULL;
+                keySelect->nCas = 0;
                 ssl->err = SSL_ALERT_INTERNAL_ERROR;
                 return MATRIXSSL_ERROR;
             }
